@@ -813,8 +813,13 @@ impl CatalogPersistence {
     pub fn save(catalog: &Catalog, path: &Path) -> Result<()> {
         let catalog_bytes = Self::serialize(catalog).wrap_err("failed to serialize catalog")?;
 
-        let mut file = File::create(path)
-            .wrap_err_with(|| format!("failed to create catalog file at '{}'", path.display()))?;
+        let mut tmp_name = path.as_os_str().to_owned();
+        tmp_name.push(".tmp");
+        let tmp_path = std::path::PathBuf::from(tmp_name);
+
+        let mut file = File::create(&tmp_path).wrap_err_with(|| {
+            format!("failed to create catalog file at '{}'", tmp_path.display())
+        })?;
 
         let mut header = vec![0u8; HEADER_SIZE];
 
@@ -849,6 +854,19 @@ impl CatalogPersistence {
 
         file.sync_all()
             .wrap_err("failed to sync catalog file to disk")?;
+        drop(file);
+
+        std::fs::rename(&tmp_path, path).wrap_err_with(|| {
+            format!("failed to move new catalog into place at '{}'", path.display())
+        })?;
+
+        if let Some(dir) = path.parent().filter(|d| !d.as_os_str().is_empty()) {
+            if let Ok(dir_file) = File::open(dir) {
+                dir_file
+                    .sync_all()
+                    .wrap_err("failed to sync catalog directory")?;
+            }
+        }
 
         Ok(())
     }
